@@ -70,7 +70,8 @@ Print Assumptions c04_secondary_round_clean.
     MISSING: that the pending multiset at the end of a round is
     [next_pending (pending at its start)], which needs the channel discipline
     "a queue of the round's kind is handed to Schedule only after it was scanned"
-    (so events scheduled during a round are never popped in it). *)
+    (so events scheduled during a round are never popped in it); its first half,
+    the queue accounting, is c04_queue_accounting below. *)
 Theorem c04_rounds_schedule_independent_partial : forall prog nq init script o s', (1 <= nq)%nat -> cwf false script = true ->
   let s := e_run prog o (e_init_ctl nq init script) in
   e_pc s = EDetermine -> step prog false TE s = Some s' ->
@@ -88,6 +89,18 @@ Proof.
   - intros P HP. split; [symmetry; apply choice_perm, HP|]. split; [apply members_perm|apply next_perm]; apply Permutation_sym, HP.
 Qed.
 Print Assumptions c04_rounds_schedule_independent_partial.
+
+(** First half of the missing piece (no controller): the queue accounting.  In every
+    reachable state every queue of each kind is in its channel, checked out by a
+    Schedule call, or taken by the round (emptyQueueChan: j taken; scanning queue i:
+    nq - i still taken); in particular when the scan of a round starts, no queue of the
+    round's kind is in the channel or in a Schedule call, so an event scheduled during
+    the scan can only land in an already scanned queue. *)
+Theorem c04_queue_accounting : forall prog nq init o, (1 <= nq)%nat ->
+  let s := e_run prog o (e_init_ctl nq init []) in
+  G1 s /\ (e_pc s = EScan 0 -> chan (e_sec s) s = [] /\ held (e_sec s) (e_ws s) = []).
+Proof. intros prog nq init o H. exact (queue_accounting prog nq init o H). Qed.
+Print Assumptions c04_queue_accounting.
 
 (** The phase guarantee over whole executions: whenever a secondary starts, every
     scheduled-and-unfinished primary of its instant was scheduled by a secondary
